@@ -8,10 +8,11 @@ CONSTANTS
   PruneBatch = 1
   L2PerPrune = 1
   MinAge = FALSE
-  MaxSteps = 6
+  MaxSteps = 7
   EnableRevert = TRUE
   EnableInterrupts = TRUE
   FixPruneAtomicFloor = TRUE
+  FixSampleOnReorg = TRUE
 INIT Init
 NEXT Next
 VIEW view
